@@ -564,8 +564,8 @@ impl Engine for VcConfig {
                     3 => ("", "unset FOO"),
                     _ => ("", "true"),
                 };
-                let want = if *inline2 > 0 { "inline" } else { "doc" };
-                let cfg2 = if *inline2 > 0 { " {environment: {FOO: inline}}" } else { "" };
+                let want = if *inline2 > 0 { "in{state_directory}line" } else { "doc" };
+                let cfg2 = if *inline2 > 0 { " {environment: {FOO: \"in{state_directory}line\"}}" } else { "" };
                 text.push_str(&format!("# One\n\n```scrut{cfg1}\n$ {cmd1}\n```\n\n# Two\n\n```scrut{cfg2}\n$ echo \"FOO=${{FOO-unset}}\"\nFOO={want}\n```\n"));
                 sb.write("doc.md", text.as_bytes());
                 let run = run_scrut(&sb, &["test", "--no-color", "-r", "json", "doc.md"], &[], std::time::Duration::from_secs(60));
